@@ -1396,13 +1396,38 @@ def dec_header_ops(sx):
 
 
 # ------------------------------------------------------------------ LineReader / from_line_reader
-def impl_line_reader(lines, mode, reads, last_eol=True, pre=0):
+def impl_line_reader(lines, mode, reads, last_eol=True, pre=0, handle="stringio"):
     """the lines joined with LF in an io.StringIO, LineReader on it, MafHeader.from_line_reader"""
     ensure_repo()
     from maflib.header import MafHeader
     from maflib.util import LineReader
     text = "\n".join(lines) + ("\n" if (lines and last_eol) else "")
-    lr = LineReader(io.StringIO(text))
+    work = None
+    if handle == "file":            # a real file handle instead of io.StringIO
+        import os
+        import tempfile
+        os.makedirs("/verif/work", exist_ok=True)
+        work = tempfile.mkdtemp(prefix="rdl_", dir="/verif/work")
+        path = os.path.join(work, "in.maf")
+        with open(path, "w", newline="") as fh:
+            fh.write(text)
+        lr = LineReader(open(path, "r", newline="\n"))
+    else:
+        lr = LineReader(io.StringIO(text))
+    try:
+        return _line_reader_run(lr, lines, mode, reads, pre)
+    finally:
+        if work is not None:
+            import shutil
+            try:
+                lr.close()
+            except Exception:  # noqa
+                pass
+            shutil.rmtree(work, ignore_errors=True)
+
+
+def _line_reader_run(lr, lines, mode, reads, pre):
+    from maflib.header import MafHeader
     for _ in range(pre):
         lr.read_line()              # lines consumed before the header is read: its lines are numbered from here
     with LogCapture() as cap:
